@@ -451,11 +451,12 @@ def run_widths(ctx, kdense):
 # ----------------------------------------------------------------------------------------------
 # tie: purification vector / in-circuit plan as produced by the REAL code
 # ----------------------------------------------------------------------------------------------
-def tie_purification(ctx, n, k, states, probs, reset=True):
+def _tie_purification(ctx, n, k, states, probs, reset, stage):
     from qclib.state_preparation.mixed import MixedInitialize
     Rec = recorder()
     eff = probs if probs is not None else [1 / k] * k
     # classical: what is handed to the initializer IS pure_state
+    stage.append("classical")
     g = MixedInitialize(states, initializer=Rec, probabilities=probs, classical=True, reset=reset)
     Rec.log.clear()
     d = g.definition
@@ -467,6 +468,7 @@ def tie_purification(ctx, n, k, states, probs, reset=True):
     a = clog2(k)
     ctx.tie({"op": "wrap", "k": k, "n": n, "reset": reset}, impl_wrap, label=f"wrap n={n} k={k} reset={reset}")
     if n >= 2 and k >= 2 and len(eff) <= 2 ** a:
+        stage.append("incircuit")
         g = MixedInitialize(states, initializer=Rec, probabilities=probs, classical=False, reset=reset)
         Rec.log.clear()
         d = g.definition
@@ -490,6 +492,22 @@ def tie_purification(ctx, n, k, states, probs, reset=True):
         lines += wrap_lines(d)
         ctx.tie({"op": "incirc", "k": k, "n": n, "reset": reset, "states": jstates(states), "probs": list(eff)},
                 lines, label=f"incirc n={n} k={k} lenP={len(eff)} reset={reset}")
+
+
+def tie_purification(ctx, n, k, states, probs, reset=True):
+    """Dump what the REAL code hands to its sub-initializer.  The ensembles generated here are valid
+    (except deliberately short probability lists), so an exception out of qclib is a violation of
+    the property ("construction never fails"), not a harness error."""
+    stage = []
+    try:
+        _tie_purification(ctx, n, k, states, probs, reset, stage)
+    except Exception as e:  # noqa: BLE001
+        mode = stage[-1] if stage else "classical"
+        rep = {"kind": "ensemble", "n": n, "k": k, "classical": mode == "classical", "reset": reset, "static": False,
+               "states": [[[float(z.real), float(z.imag)] for z in s] for s in states],
+               "probs": None if probs is None else [repr(x) for x in probs]}
+        ctx.fail(f"ensemble:{mode}:n={n}:k={k}:tie:construct-raises",
+                 f"valid ensemble raised {type(e).__name__}: {str(e)[:200]}", rep)
 
 
 def wrap_lines(d):
